@@ -24,6 +24,7 @@ the only expression of that statement that touches `self` (so Python's evaluatio
 """
 import ast
 import os
+import re
 from fractions import Fraction
 
 from vlib.core import SRC, TranslatorRefusal
@@ -113,6 +114,8 @@ class Translator:
         self.const_order = []
         self.used_lat_fields = set()
         self.table = {}          # U11.. -> dict(i, j, factor_get, factor_set)
+        self.alias = {}          # generated definition -> binding events of _U / xyz (keyed statements, in source order)
+        self.alias_seen = {}
 
     # ------------------------------------------------------------------ collection
     def collect(self):
@@ -208,13 +211,35 @@ class Translator:
         if [x.arg for x in g.args.args] != ["self", "target"] or [ast.unparse(d) for d in g.args.defaults] != ["None"]:
             refuse(a, g, "signature of __copy__ is not (self, target=None)")
         body = [ast.unparse(st) for st in g.body if not is_doc(st)]
-        want = ["if target is None:\n    target = Atom()\nelif target is self:\n    return target",
-                "target.__dict__.update(self.__dict__)", "target.xyz = numpy.copy(self.xyz)", "target._U = numpy.copy(self._U)", "return target"]
-        if body[:2] != want[:2] or body[-1] != want[-1] or sorted(body[2:-1]) != sorted(want[2:-1]):
-            for w in want:
-                if w not in body:
-                    refuse(a, g, "__copy__ lacks `%s` (attributes copied by reference or not at all)" % w.split("\n")[0])
-            refuse(a, g, "__copy__ is not the understood sequence of statements")
+        head = ["if target is None:\n    target = Atom()\nelif target is self:\n    return target", "target.__dict__.update(self.__dict__)"]
+        if body[:2] != head or body[-1] != "return target":
+            refuse(a, g, "__copy__ is not `if target is None: target = Atom() elif target is self: return target; "
+                         "target.__dict__.update(self.__dict__); <array copies>; return target`")
+        # after __dict__.update the target's xyz and _U ARE the source's arrays unless a later statement rebinds them
+        ev = {"xyz": "BShareSrc WX", "_U": "BShareSrc WU"}
+        for st in body[2:-1]:
+            m = re.match(r"^target\.(xyz|_U) = (.*)$", st)
+            if not m:
+                refuse(a, g, "unrecognised statement in __copy__: " + st[:70])
+            attr, rhs = m.group(1), m.group(2)
+            w = "WX" if attr == "xyz" else "WU"
+            if rhs in ("numpy.copy(self.%s)" % attr, "numpy.array(self.%s)" % attr, "self.%s.copy()" % attr):
+                ev[attr] = "BFresh " + w
+            elif rhs == "self.%s" % attr:
+                ev[attr] = "BShareSrc " + w
+            else:
+                refuse(a, g, "__copy__ binds %s to something that is neither the source's array nor a copy of it: %s" % (attr, rhs))
+        self.alias["copy_Atom"] = [ev["xyz"], ev["_U"]]
+        # no other code of the class may rebind xyz or _U of any object
+        for st in cls.body:
+            if isinstance(st, ast.FunctionDef) and st.name not in ("__copy__",):
+                for n in ast.walk(st):
+                    if isinstance(n, (ast.Assign, ast.AugAssign)):
+                        for t in (n.targets if isinstance(n, ast.Assign) else []):
+                            if isinstance(t, ast.Attribute) and t.attr in ("xyz", "_U") and not is_self_attr(t):
+                                refuse(a, n, "%s rebinds %s of another object" % (st.name, t.attr))
+                            if is_self_attr(t, "xyz") and st.name != "__init__":
+                                refuse(a, n, "%s rebinds self.xyz (only __init__ and __copy__ may)" % st.name)
 
     def add_unit(self, cls, name, kind, params, fdef, fn):
         args = [x.arg for x in fdef.args.args]
@@ -424,6 +449,22 @@ class Translator:
         line = self.simple(st, env, ctx)
         return ind + line + "\n" + self.block(rest, env, ctx, ind)
 
+    def bind_event(self, u, st, w, env):
+        """Which array object an attribute is (re)bound to by `self.<attr> = e`: a new one, the atom's own, or the caller's."""
+        v = st.value
+        if isinstance(v, ast.Attribute) and is_self_attr(v) and v.attr in ("U", "_U"):
+            ev = "BOwn " + w                      # the U getter returns self._U itself
+        elif isinstance(v, ast.Name):
+            ev = "BParam " + w                    # an array object handed in by the caller
+        elif isinstance(v, ast.BinOp) or (isinstance(v, ast.Call) and ast.unparse(v.func) in ("numpy.zeros", "numpy.copy", "numpy.array", "numpy.dot")):
+            ev = "BFresh " + w                    # numpy arithmetic / constructors allocate
+        else:
+            refuse(u.fn, st, "cannot tell which array object %s is bound to: %s" % (w, ast.unparse(st)[:70]))
+        key = (u.coqname if u.kind != "init" else "init_Atom", st.lineno, st.col_offset)
+        if key not in self.alias_seen:
+            self.alias_seen[key] = ev
+            self.alias.setdefault(key[0], []).append(ev)
+
     # ---- constructor-only statements ------------------------------------------------------------------
     @staticmethod
     def non_adp(st):
@@ -467,6 +508,11 @@ class Translator:
                 refuse(fn, st, "copy-constructor block is not `if isinstance(atype, Atom): atype.__copy__(target=self) elif atype is not None: self.element = atype`")
             return "%slet s := match atype with Some src => copy_Atom C src | None => s end in\n%s" % (ind, self.block(rest, env, ctx, ind))
         if self.non_adp(st):
+            for n in ast.walk(st):
+                if isinstance(n, ast.Assign):
+                    for t in n.targets:
+                        if is_self_attr(t, "xyz"):
+                            self.bind_event(ctx["unit"], n, "WX", env)
             return self.block(rest, env, ctx, ind)
         if isinstance(st, ast.If):
             tests = st.test.values if isinstance(st.test, ast.BoolOp) and isinstance(st.test.op, ast.And) else [st.test]
@@ -536,6 +582,7 @@ class Translator:
                 pre, (ty, x) = self.stmt_expr(st.value, env, ctx)
                 if ty != "M":
                     refuse(fn, st, "self._U assigned a non-matrix")
+                self.bind_event(u, st, "WU", env)
                 return "%slet s := set_stU s %s in" % (pre, x)
             if isinstance(t, ast.Subscript) and is_self_attr(t.value, "_U"):
                 pre, (ty, x) = self.stmt_expr(st.value, env, ctx)
@@ -892,7 +939,7 @@ class Translator:
         for key in sorted(self.units, key=lambda k: (k[2] == "init", k[0] != "Lattice", k[1], k[2])):
             self.translate_unit(key)
         out = ["(* GENERATED by translate/c09_atom.py from atom.py and lattice.py - do not edit *)",
-               "From Coq Require Import ZArith Bool.", "From DS Require Import Base.C09_GNum Model.C09_Prims.", "",
+               "From Coq Require Import ZArith Bool String.", "From DS Require Import Base.C09_GNum Model.C09_Prims.", "",
                "(* every definition takes the context C : cctx T = (number operations, pi, sqrt, the module constant",
                "   lattice.cartesian) first, so that arities do not depend on what a body happens to use *)", ""]
         e = self.lat_epsilon
@@ -910,6 +957,11 @@ class Translator:
                                              ", writes storage" if u.writes else ""))
             out.append(u.text)
             out.append("")
+        out.append("(* which array OBJECT every rebinding statement `self._U = ..` / `self.xyz = ..` / `target.X = ..` installs *)")
+        out.append("Definition c09_alias_table : list (String.string * list bindev) := (")
+        for name in sorted(self.alias):
+            out.append('  ("%s"%%string, (%s :: nil)) ::' % (name, " :: ".join(self.alias[name])))
+        out.append("  nil).")
         return "\n".join(out) + "\n"
 
 
